@@ -928,3 +928,41 @@ func foldNotEscapeConditioned(c *Ctx, r *Report, rule string) {
 	})
 	r.check(n > 0 && len(bad) == 0, rule, "normalizedString", c.pos(fn.Pos()), fmt.Sprintf("%d fold store(s), none under the escape flag", n), "%s: a letter written behind a backslash keeps its case in the key, so two records that IsDuplicate calls duplicates (its name comparison folds every letter) get different keys and Dedup keeps both", strings.Join(uniqStrings(bad), "; "))
 }
+
+// dedupLeavesScratchEmpty (F82): every return of Dedup leaves the map it was lent empty: the return that hands back
+// the list as it came (nothing was a duplicate) is preceded by clear(m), the other one by the pass that removes a key
+// for every record kept. The map is scratch space the caller may hand to the next call.
+func dedupLeavesScratchEmpty(c *Ctx, r *Report, rule string) {
+	r.rule(rule, 1, "the return of Dedup that hands the list back unchanged empties the scratch map first")
+	fn := c.ssaFunc("Dedup")
+	if fn == nil || len(fn.Params) < 2 {
+		r.cerr(rule, "Dedup", "function not found")
+		return
+	}
+	r.fn("Dedup")
+	rrs := fn.Params[0]
+	n := 0
+	var bad []string
+	for _, b := range fn.Blocks {
+		ret, ok := b.Instrs[len(b.Instrs)-1].(*ssa.Return)
+		if !ok || len(ret.Results) != 1 || ret.Results[0] != ssa.Value(rrs) {
+			continue
+		}
+		n++
+		cleared := false
+		for x := b; x != nil; x = x.Idom() {
+			for _, in := range x.Instrs {
+				if cl, isCall := in.(*ssa.Call); isCall && calleeNameSSA(&cl.Call) == "builtin.clear" && isMapType(cl.Call.Args[0]) {
+					cleared = true
+				}
+			}
+			if len(x.Preds) != 1 {
+				break // only the straight line into the return counts
+			}
+		}
+		if !cleared {
+			bad = append(bad, c.pos(ret.Pos()))
+		}
+	}
+	r.check(n > 0 && len(bad) == 0, rule, "Dedup", c.pos(fn.Pos()), fmt.Sprintf("%d return(s) of the unchanged list, each behind clear(m)", n), "Dedup returns the list unchanged at %s and leaves the keys of its records in the caller's map: the next call with the same map takes them for records of its own list, keeps duplicates and lowers the TTL of a record of the earlier list", strings.Join(bad, ", "))
+}
